@@ -16,7 +16,7 @@ BUILD = os.path.join(VERIF, ".build")
 TK_IMPL = os.path.join(BUILD, "cargo", "debug", "tk_impl")
 TK_CLI = os.path.join(BUILD, "cargo", "debug", "tackler")
 TK_MODEL = os.path.join(VERIF, "lean", ".lake", "build", "bin", "tk_model")
-NCPU = os.cpu_count() or 4
+NCPU = int(os.environ.get("VERIF_JOBS") or 0) or os.cpu_count() or 4   # VERIF_JOBS caps the driver processes
 
 decimal.getcontext().prec = 120
 MAX96 = 2 ** 96 - 1
